@@ -1610,6 +1610,7 @@ func (ctx Ctx) refExpr(s ast.Expr) coq.Expr {
 				"reference to selector from non-struct type %v", ty)
 		}
 		fieldName := s.Sel.Name
+		ctx.dep.addDep(info.name)
 
 		var structExpr coq.Expr
 		if info.throughPointer {
@@ -1700,6 +1701,7 @@ func (ctx Ctx) assignFromTo(s ast.Node,
 		}
 		if ok {
 			fieldName := lhs.Sel.Name
+			ctx.dep.addDep(info.name)
 			return coq.NewAnon(coq.NewCallExpr(coq.GallinaIdent("struct.storeF"),
 				coq.StructDesc(info.name),
 				coq.GallinaString(fieldName),
